@@ -52,6 +52,8 @@ def run_result(ctx, desc, extra_sample=None):
     cov[f"box.{desc['box']['cls']}"] += 1
     cov[f"objective.{desc['obj']['fam']}"] += 1
     cov[f"direction.{'max' if desc.get('maximize') else 'min'}"] += 1
+    if desc.get("options", {}).get("log_level") in ("info", "debug"):
+        cov["log_level.verbose"] += 1
     if "gsc" in desc:
         cov[f"gsc.{desc['gsc']['k']}"] += 1
         cov[f"sprout.{desc['sprout']['k']}"] += 1
@@ -262,6 +264,18 @@ class C02(RunSpec):
             # (FunctionProblem(use_cache=True)), same seed / box / engines: a benchmark loop over several functions
             rng = gen.case_rng(self.prop, seed, idx, "cache")
             d["use_cache"] = True
+            if (idx // 10) % 2:
+                # a microscopic box: distinct genomes that differ only far below 1e-9 (keys of the result cache must not merge them)
+                d["box"] = {"cls": "micro", "bounds": [[-1e-10, 1e-10] for _ in d["box"]["bounds"]]}
+                for lv in d["levels"]:
+                    for k_ in ("sample_std", "mutation_std", "mutation_std_step", "sigma0"):
+                        if isinstance(lv.get(k_), float):
+                            lv[k_] = 2e-10 * rng.choice([0.05, 0.2])
+                if d["sprout"].get("far"):
+                    d["sprout"]["far"] = 1e-11
+                for f_ in d["sprout"].get("dfilters", []):
+                    if f_.get("k") == "far":
+                        f_["d"] = 1e-11
             d["options"]["random_seed"] = rng.randint(0, 10**6)
             other = rng.choice([f for f in gen.FAMILIES if f != d["obj"]["fam"] and f != "constant"])
             d["second_objective"] = gen.gen_objective(rng, len(d["box"]["bounds"]), other)
@@ -309,6 +323,11 @@ class C03(RunSpec):
         p["leaf"] = _cycle(ALL_LEAVES, idx, 1)
         p["gscs"] = ["fevals", "evals", "melimit", "fevals"]
         p["levels"] = [2, 2, 3, 1]
+        if idx % 10 == 8:
+            # an objective with a hard +-inf penalty zone behind a cutoff wrapper that never runs out: genuine infinite values are
+            # evaluations like any other
+            p.update({"fam": "penalty", "root": _cycle(["sea", "de", "lhs", "sobol", "ga"], idx // 10), "leaf": _cycle(["sea", "de", "de_dither", "sea_cx"], idx // 10),
+                      "levels": [1, 2], "stacks": False, "gscs": ["melimit", "evals"], "boxes": ["sym", "asym"], "penalty_cutoff": True})
         if idx % 10 == 2:
             # local searches that make no iteration at all (flat objective): whatever the deme does then must still be counted
             p.update({"fams": ["plateau", "constant", "plateau"], "leaf": _cycle(["local", "local_maxiter"], idx // 10), "levels": [2, 3], "allow_cutoff": False})
@@ -316,8 +335,16 @@ class C03(RunSpec):
             p = {"kind": "minimize", "dim": (2, 4), "budget": "maxfun"}
         return p
 
+    def make_case(self, seed, idx, tier):
+        d = super().make_case(seed, idx, tier)
+        if idx % 10 == 8 and d.get("kind") == "tree" and d["obj"]["fam"] == "penalty" and not d.get("reuse"):
+            for lv in d["levels"]:
+                lv["stack"] = ["cutoff:1000000"]
+        return d
+
     def floors(self, tier):
-        fl = [(f"C03.inside_metaepoch.{c}", 1, "consultation inside a metaepoch") for c in ("EADeme", "DEDeme", "SHADEDeme", "CMADeme", "LHSDeme", "SobolDeme")]
+        fl = [("objective.penalty", 3, "objective with a hard infinite penalty zone")]
+        fl += [(f"C03.inside_metaepoch.{c}", 1, "consultation inside a metaepoch") for c in ("EADeme", "DEDeme", "SHADEDeme", "CMADeme", "LHSDeme", "SobolDeme")]
         fl += [
             ("engine.local", 1, "local deme"),
             ("C03.cutoff_exhausted_seen", 1, "budget exhausted"),
@@ -356,6 +383,8 @@ class C04(RunSpec):
             p["levels"] = [1, 2, 2, 3]
             p["boxes"] = ["sym", "asym", "decimal"]
             p["stacks"] = False
+        if idx % 10 == 8:
+            p["log_level"] = _cycle(["info", "debug"], idx // 10)  # verbose levels: whatever is computed for log messages must stay a pure read
         if idx % 20 == 11:
             # an objective that is infinite in the good direction somewhere: the best must still be reported as such
             p = {"dim": (2, 2), "n_levels": 1, "root": _cycle(["sea", "de", "lhs", "sobol", "ga", "de_dither"], idx // 20), "fam": "pit",
@@ -377,6 +406,7 @@ class C04(RunSpec):
             ("C04.best_ever_not_in_any_current_population", 1, "best-ever individual no longer in any current population"),
             ("C04.budget_pairs", 1, "budget pairs"),
             ("objective.pit", 2, "objective with good-direction infinite values"),
+            ("log_level.verbose", 5, "runs at log level info / debug"),
             ("C04.best_ever_first_observed_around_first_true", 10, "runs whose best-ever value was first observed in the last generations before / after the GSC became true"),
         ]
 
@@ -620,6 +650,10 @@ class C07(RunSpec):
         p["levels"] = [2, 3, 3, 1]
         p["gscs"] = ["melimit", "evals"]
         p["entry"] = "tree"
+        if idx % 10 == 5:
+            # SkipSameSprout in a three-level tree whose level-1 demes all have children (the filter walks sibling parents' child lists)
+            p.update({"n_levels": 3, "root": _cycle(["sea", "de", "shade"], idx // 10), "inner": _cycle(["sea", "de"], idx // 10), "leaf": _cycle(["sea", "cma", "de"], idx // 10),
+                      "sprout": "custom", "level_limit": 3, "lscs": ["dontstop"], "gsc": "melimit", "fams": ["rastrigin", "funnel"], "hibernation": False, "skipsame3": True})
         if idx % 10 == 9:
             # many short-lived demes: two-digit ids and id suffixes, levels that fill up and empty again and again
             p.update({"n_levels": 2 + (idx // 10) % 2, "root": _cycle(["sea", "de", "lhs"], idx // 10), "inner": "sea", "leaf": _cycle(["sea", "de", "cma"], idx // 10),
@@ -639,6 +673,11 @@ class C07(RunSpec):
 
     def make_case(self, seed, idx, tier):
         d = super().make_case(seed, idx, tier)
+        if idx % 10 == 5 and d.get("kind") == "tree" and len(d["levels"]) == 3 and not d.get("reuse"):
+            rmin = min(b[1] - b[0] for b in d["box"]["bounds"])
+            d["sprout"] = {"k": "custom", "gen": {"k": "best"}, "dfilters": [{"k": "far", "d": rmin * 0.03, "ord": 2}],
+                           "tfilters": [{"k": "levellimit", "n": 3}, {"k": "skipsame"}], "ll": 3}
+            d["gsc"] = {"k": "melimit", "n": 9}
         if idx % 10 == 9 and d.get("kind") == "tree" and not d.get("reuse"):
             d["gsc"] = {"k": "melimit", "n": 30}
             d["sprout"]["far"] = min(b[1] - b[0] for b in d["box"]["bounds"]) * 0.01
@@ -697,7 +736,21 @@ class C08(RunSpec):
         p["gscs"] = ["melimit"]
         p["fams"] = ["rastrigin", "funnel", "plateau", "sphere"]
         p["hibernation_p"] = 0.5  # sleeping demes are still active and occupy their slot
+        if idx % 10 == 6:
+            # the local-method generator offers candidates for parents that have just *stopped*; leaves that stay active keep their slots
+            p.update({"n_levels": 3, "leaf": _cycle(["cma", "sea", "de"], idx // 10), "inner": _cycle(["cma", "sea"], idx // 10), "sprout": "custom", "hibernation": False,
+                      "level_limit": 2, "gsc": "melimit"})
         return p
+
+    def make_case(self, seed, idx, tier):
+        d = super().make_case(seed, idx, tier)
+        if idx % 10 == 6 and d.get("kind") == "tree" and len(d["levels"]) == 3 and not d.get("reuse") and not d.get("soak"):
+            d["sprout"] = {"k": "custom", "gen": {"k": "nbclocal", "df": 1.0, "trunc": 1.0}, "dfilters": [{"k": "demelimit", "n": 2}], "tfilters": [{"k": "levellimit", "n": 2}], "ll": 2}
+            d["levels"][0]["lsc"] = {"k": "dontstop"}
+            d["levels"][1]["lsc"] = {"k": "melimit", "n": 2}
+            d["levels"][2]["lsc"] = {"k": "dontstop"}
+            d["gsc"] = {"k": "melimit", "n": 12}
+        return d
 
     def floors(self, tier):
         return [
